@@ -81,4 +81,26 @@ theorem skel_GetClientIP_ok : skel_GetClientIP = ([
   "return p.GetRealClientIP(req.Header)",
   "return getRemoteIP(req)"] : List String) := rfl
 
+theorem flags_bypass_ok : flags_bypass = ([
+  "StringSlice api-route = []string{}",
+  "Bool force-https = false",
+  "String real-client-ip-header = \"X-Real-IP\"",
+  "Bool reverse-proxy = false",
+  "Bool skip-auth-preflight = false",
+  "StringSlice skip-auth-regex = []string{}",
+  "StringSlice skip-auth-route = []string{}",
+  "Bool skip-auth-strip-headers = true",
+  "StringSlice trusted-ip = []string{}"] : List String) := rfl
+
+theorem optionTags_bypass_ok : optionTags_bypass = ([
+  "api-route api_routes Options.APIRoutes []string",
+  "force-https force_https Options.ForceHTTPS bool",
+  "real-client-ip-header real_client_ip_header Options.RealClientIPHeader string",
+  "reverse-proxy reverse_proxy Options.ReverseProxy bool",
+  "skip-auth-preflight skip_auth_preflight Options.SkipAuthPreflight bool",
+  "skip-auth-regex skip_auth_regex Options.SkipAuthRegex []string",
+  "skip-auth-route skip_auth_routes Options.SkipAuthRoutes []string",
+  "skip-auth-strip-headers skip_auth_strip_headers LegacyHeaders.SkipAuthStripHeaders bool",
+  "trusted-ip trusted_ips Options.TrustedIPs []string"] : List String) := rfl
+
 end O2P.Expect.C16
